@@ -2,13 +2,29 @@
   Scc.A64.PrintLemmas — proof file: code.rs `print_i64` (save caller-save registers, move the
   argument, call, restore) on the poison machine, for EVERY context.
 -/
-import Mathlib.Data.List.Nodup
+
 import Scc.A64.StackLemmas
 import Scc.A64.Backend
 
 set_option linter.unusedSimpArgs false
 
 namespace Scc.A64
+
+/-! local replacements for the three `Mathlib.Data.List.Nodup` lemmas this file used (core only) -/
+theorem nodup_map_of_inj {α β : Type} {f : α → β} {l : List α} (hf : ∀ a b, f a = f b → a = b)
+    (h : l.Nodup) : (l.map f).Nodup :=
+  List.Pairwise.map f (fun a b hab e => hab (hf a b e)) h
+
+theorem nodup_reverse_iff {α : Type} {l : List α} : l.reverse.Nodup ↔ l.Nodup := by
+  unfold List.Nodup
+  rw [List.pairwise_reverse]
+  constructor <;> intro h <;> exact h.imp (fun hab e => hab e.symm)
+
+theorem not_mem_take_drop {α : Type} {l : List α} (h : l.Nodup) (n : Nat) {a : α}
+    (h1 : a ∈ l.take n) (h2 : a ∈ l.drop n) : False := by
+  have := List.take_append_drop n l ▸ h
+  exact (List.nodup_append.mp this).2.2 a h1 a h2 rfl
+
 
 /-- machine register of a logical register number below `REGISTER_NUM` -/
 def ar (r : Nat) : Fin 31 := ⟨archNumber r % 31, Nat.mod_lt _ (by decide)⟩
@@ -286,7 +302,7 @@ theorem saveMoves_fst_nodup (fb : Nat) (regs : List Nat) : ((saveMoves fb regs).
     simp only [saveMoves, List.map_map, Function.comp_def]
     exact enumFrom_map_fst' (fun x => fb + x) 0 _
   rw [this]
-  exact List.Nodup.map (fun a b h => by omega) (List.nodup_range' 1)
+  exact nodup_map_of_inj (fun a b h => by omega) (List.nodup_range' 1)
 
 theorem mem_pushItems {fb : Nat} {regs : List Nat} {p : Nat × Int} (h : p ∈ pushItems fb regs) :
     ∃ o : Nat, o < regs.length - backupUsed fb regs ∧ p.2 = address ((pushedCount fb regs : Int) - 1 - (o : Int)) ∧
@@ -310,7 +326,7 @@ theorem pushItems_snd_nodup (fb : Nat) (regs : List Nat) : ((pushItems fb regs).
     simp only [pushItems, List.map_map, Function.comp_def]
     exact enumFrom_map_fst' (fun (o : Nat) => address ((pushedCount fb regs : Int) - 1 - (o : Int))) 0 _
   rw [this]
-  exact List.Nodup.map (fun a b h => by simp only [address_eq] at h; omega) (List.nodup_range' 1)
+  exact nodup_map_of_inj (fun a b h => by simp only [address_eq] at h; omega) (List.nodup_range' 1)
 
 theorem roundEven_props (k : Nat) : k ≤ roundEven k ∧ roundEven k ≤ k + 1 ∧ roundEven k % 2 = 0 := by
   unfold roundEven
@@ -423,7 +439,7 @@ theorem pop_phase {c : MemCfg} (hm : MemOk c) (fb : Nat) (regs : List Nat) (σ6 
       · rw [hp2]; exact okOff_address (by omega) (by omega)
       · rw [hp2, address_eq]; omega
     have hndr : ((pushItems fb regs).reverse.map (·.1)).Nodup := by
-      rw [List.map_reverse, List.nodup_reverse, pushItems_fst]
+      rw [List.map_reverse, nodup_reverse_iff, pushItems_fst]
       exact hnd.sublist (List.drop_sublist _ _)
     obtain ⟨σ7, he7, hsp7, hheap7, hslots7, hit7, hoth7⟩ :=
       exec_ldrCodes hm (S - 8 * pushedCount fb regs) (by omega) (by omega) (pushItems fb regs).reverse σ6 hS hitems hndr
@@ -612,7 +628,7 @@ theorem save_call_restore {c : MemCfg} (hm : MemOk c) (fb : Nat) (regs : List Na
           obtain ⟨_, _, _, hq1⟩ := mem_pushItems hq
           have := ar_inj (hr30 _ (hdrop _ hq1)) (hr30 _ hr) e
           rw [this] at hq1
-          exact (List.disjoint_take_drop hnd (Nat.le_refl _)) hmem hq1
+          exact not_mem_take_drop hnd _ hmem hq1
         show σ8.reg (ar p.2) = _
         rw [hother8 _ hnot]
         have h6 := hpairs6 (p.2, p.1) hp'
